@@ -107,6 +107,53 @@ fn gate<S: Src, const L: usize, const SWAP: bool>(s: &mut S) {
     }
     std::mem::forget(out);
 }
+
+/// Both cursors at once: `after` and `before` are each absent or an arbitrary 1-byte ASCII
+/// string; the closure runs iff first/last are non-negative and BOTH present cursors decode,
+/// and receives each decoded value in its own position (not swapped, not dropped).
+pub fn gate_both<S: Src>(s: &mut S) {
+    let first = if s.bool() { Some(s.i32()) } else { None };
+    let last = if s.bool() { Some(s.i32()) } else { None };
+    let pa = s.bool();
+    let pb = s.bool();
+    let ba = [s.u8()];
+    let bb = [s.u8()];
+    s.assume(ba[0] < 0x80 && bb[0] < 0x80);
+    let after: Option<String> = if pa { Some(unsafe { String::from_utf8_unchecked(ba.to_vec()) }) } else { None };
+    let before: Option<String> = if pb { Some(unsafe { String::from_utf8_unchecked(bb.to_vec()) }) } else { None };
+    let ea: Option<Option<u8>> = if pa { Some(ref_u8(&ba)) } else { None };
+    let eb: Option<Option<u8>> = if pb { Some(ref_u8(&bb)) } else { None };
+    let called: Cell<Option<(Option<u8>, Option<u8>, Option<usize>, Option<usize>)>> = Cell::new(None);
+    let fut = query_with::<u8, u32, _, _, Error>(after, before, first, last, |a, b, f, l| {
+        called.set(Some((a, b, f, l)));
+        async move { Ok(7u32) }
+    });
+    let out = poll_once(fut);
+    let should_call = first.map_or(true, |v| v >= 0)
+        && last.map_or(true, |v| v >= 0)
+        && !matches!(ea, Some(None))
+        && !matches!(eb, Some(None));
+    cover!(should_call && pa && pb && ba[0] != bb[0], "closure reached with two different decoded cursors");
+    cover!(pa && pb && matches!(ea, Some(Some(_))) && matches!(eb, Some(None)), "only `before` undecodable");
+    match &out {
+        Some(Ok(_)) => {
+            assert!(should_call, "page closure ran although an argument is invalid");
+            match called.get() {
+                Some((a, b, f, l)) => {
+                    assert!(a == ea.flatten() && b == eb.flatten(), "each decoded cursor passed in its own position");
+                    assert!(f == first.map(|v| v as usize) && l == last.map(|v| v as usize), "first/last passed unchanged");
+                }
+                None => assert!(false, "Ok without calling the closure"),
+            }
+        }
+        Some(Err(_)) => {
+            assert!(!should_call, "valid pagination arguments rejected");
+            assert!(called.get().is_none(), "closure ran although the request is rejected");
+        }
+        None => assert!(false, "query_with did not complete"),
+    }
+    std::mem::forget(out);
+}
 pub fn gate0<S: Src>(s: &mut S) { gate::<S, 0, false>(s) }
 pub fn gate1<S: Src>(s: &mut S) { gate::<S, 1, false>(s) }
 pub fn gate2<S: Src>(s: &mut S) { gate::<S, 2, false>(s) }
@@ -164,6 +211,7 @@ harnesses! {
     #[kani::unwind(5)] #[kani::stub(std::fmt::format, crate::stubs::fmt_stub)] c32_gate2 => gate2;
     #[kani::unwind(6)] #[kani::stub(std::fmt::format, crate::stubs::fmt_stub)] c32_gate3 => gate3;
     #[kani::unwind(5)] #[kani::stub(std::fmt::format, crate::stubs::fmt_stub)] c32_gate2_before => gate2_before;
+    #[kani::unwind(5)] #[kani::stub(std::fmt::format, crate::stubs::fmt_stub)] c32_gate_both => gate_both;
     #[kani::unwind(6)] c32_rt_u8 => rt_u8;
     #[kani::unwind(6)] c32_rt_i8 => rt_i8;
     #[kani::unwind(8)] c32_rt_u16 => rt_u16;
